@@ -10,7 +10,7 @@
 #include <verif_close_access.h>
 #include <verif_stubs_common.h>
 #include <verif_stubs_node.h>
-#include "phantom.h"
+#include <verif_phantom.h>
 
 RecursiveMutex cs_main;     // kernel/cs_main.cpp (not linked)
 using kernel::CBlockFileInfo;
